@@ -112,6 +112,15 @@ impl CodePointSet {
         ensures final(self).wf(), forall|cp: int| final(self).has(cp) <==> (old(self).has(cp) || new_iv.first <= cp <= new_iv.last),
     { unimplemented!() }
 
+// assert_is_well_formed is a debug-only check (cfg!(debug_assertions), slice::windows: outside what Verus accepts): its assertions
+    // are turned into the precondition, so every call of it in verified text is a proof obligation; it has no effect.
+    #[verifier::external_body]
+    fn assert_is_well_formed(&self)
+        requires self.wf(),
+    { }
+
+//@@EXTRACTED:from_sorted@@
+
 //@@EXTRACTED:set_new@@
 
 //@@EXTRACTED:clear@@
